@@ -19,6 +19,9 @@ func c03Specs(tier string) []*Spec {
 		add("default/5keys/d6", defaultCfg, k5, bs("x"), 6, 0, writes)
 		add("cache1000/3keys/d4", Cfg{Fast: true, Cache: 1000}, k3, bs("x"), 4, 1, full)
 		add("iv7/3keys/d4", Cfg{Fast: true, IVSet: true, IV: 7}, k3, bs("x"), 4, 1, full)
+		// version numbers around the boundaries of the varint encoding used inside leaf and inner hashes (63|64, 8191|8192)
+		add("iv63/3keys/d4", Cfg{Fast: true, IVSet: true, IV: 63}, k3, bs("x"), 4, 1, full)
+		add("iv8191/3keys/d4", Cfg{Fast: false, IVSet: true, IV: 8191}, k3, bs("x"), 4, 1, full)
 		return specs
 	}
 	add("default/3keys/d6", defaultCfg, k3, bs("x", "y"), 6, 2, full)
@@ -26,6 +29,10 @@ func c03Specs(tier string) []*Spec {
 	add("default/5keys/d7", defaultCfg, k5, bs("x"), 7, 0, writes)
 	add("cache1000/3keys/d5", Cfg{Fast: true, Cache: 1000}, k3, bs("x"), 5, 2, full)
 	add("iv7/3keys/d5", Cfg{Fast: true, IVSet: true, IV: 7}, k3, bs("x"), 5, 2, full)
+	add("iv63/3keys/d5", Cfg{Fast: true, IVSet: true, IV: 63}, k3, bs("x"), 5, 2, full)
+	add("iv127/3keys/d5", Cfg{Fast: true, IVSet: true, IV: 127}, k3, bs("x"), 5, 2, full)
+	add("iv8191/3keys/d5", Cfg{Fast: false, IVSet: true, IV: 8191}, k3, bs("x"), 5, 2, full)
+	add("iv1048575/3keys/d4", Cfg{Fast: false, IVSet: true, IV: 1048575}, k3, bs("x"), 4, 1, full)
 	return specs
 }
 
